@@ -176,7 +176,7 @@ def step_index(engine, prop, verif_seed, i, tier, tolerate, agg,
             agg['rechecked'] += 1
             if res2['digest'] != res['digest'] and out is None:
                 out = {'nondeterminism': sc}
-    if i % 64 == 63:
+    if i % 16 == 15:
         gc.collect()
     return out
 
